@@ -19,7 +19,7 @@ func init() {
 		Level: "other",
 		Explanation: "Decides the mechanisms the generator's oracle rests on: (R-EXECOP) sibling agreement between the generator's execOp and the engine's executeOperatorProxy: the same decision table — `and` with a false operand -> false; `or` with a true operand -> true; any DNE operand -> DNE; otherwise the table operator builtinOperators[op](nil, operands) — with the same polarity and the same order (the shortcuts are not conditioned on the absence of DNE); a different order is a different three-valued logic; " +
 			"(R-GENIF) the value reported for `(if c a b)` is a's value under c == true, b's under c == false, DNE under c == DNE, for the sub-results rendered in that textual order; (R-GENSAFE) the operator list containing / or % is indexed only under the 'no later operand is zero' flag, the flag starts true and is cleared exactly under operand == int64(0) for every operand but the first (a full loop over childRes[1:]), the fallback list contains neither / % div mod, every listed operator is a key of the operator table, every index `x % len(L)` has a non-empty L (R-DIV0 of C18); the reported value of an n-ary node is execOp(op, all child values in order) for the rendered op. " +
-			"Listed, not decided: the operator error discarded in execOp (`res, _ := fn(…)`) is a stated belief justified by R-GENSAFE and operand types. NOT decided: that the reported value equals a reference evaluator's on every seed (value semantics).",
+			"(R-GENOPT) every func(*GenExprConfig) option stores only through its parameter and its own locals, never into a captured variable: no state between applications. Listed, not decided: the operator error discarded in execOp (`res, _ := fn(…)`) is a stated belief justified by R-GENSAFE and operand types. NOT decided: that the reported value equals a reference evaluator's on every seed (value semantics).",
 		Run:       runC20,
 		Witnesses: c20Witnesses,
 	})
